@@ -104,9 +104,19 @@ def run_case(ctx, case) -> None:
     except Exception as exc:
         ctx.violation("shapley-raised", f"{type(exc).__name__}: {exc} (n={n})", case)
         return
+    if case.get("graph") is None and n >= 2 and rng.random() < 0.3:
+        # the all-players entry point returns an iterator: two of them consumed in lock-step must not disturb each other
+        other_vals = [0.0] + [float(rng.randint(-5, 5)) for _ in range(size - 1)]
+        g_o = real_game(other_vals)
+        alone = [float(x) for x in compute_shapley_value(g_o)]
+        pairs = list(zip(compute_shapley_value(game), compute_shapley_value(g_o)))
+        ctx.count("interleaved_iterator_pairs")
+        if [float(a) for a, _ in pairs] != got or [float(b) for _, b in pairs] != alone:
+            ctx.violation("interleaved-iterators-disturb-each-other", f"two compute_shapley_value iterators consumed in lock-step give "
+                          f"{[float(a) for a, _ in pairs]} / {[float(b) for _, b in pairs]} instead of {got} / {alone} (n={n})", case)
     fv = [fr(x) for x in values]
     mag = float(sum(abs(x) for x in fv))
-    tol = 1e-10 * (1.0 + mag)
+    tol = 1e-10 * mag + 1e-300
     if n <= case.get("perm_max", 7):
         want = ref_shapley_perm(n, fv)
         ctx.count("orderings_definition_checks")
@@ -285,6 +295,10 @@ def gen_game(rng, n):
         v = [rng.uniform(-1e6, 1e6) for _ in range(size)]
     else:
         v = [float(rng.randint(1, 5)) if rng.random() < 0.15 else 0.0 for _ in range(size)]
+    if rng.random() < 0.15:
+        k2 = rng.choice([-60, -40, 30])          # the same game in other units (tiny values must not be "rounding noise")
+        v = [x * 2.0 ** k2 for x in v]
+        fam = f"{fam}*2^{k2}"
     v[0] = 0.0
     return fam, v
 
